@@ -350,6 +350,9 @@ func (s Sub[C]) Check(t *testing.T) {
 		}
 	}()
 	if n := Scale(s.Q, s.T); n > 0 {
+		if o, err := strconv.Atoi(os.Getenv("VERIF_CHECKS")); err == nil && o > 0 {
+			n = o // development override
+		}
 		flag.Set("rapid.checks", strconv.Itoa(n))
 	}
 	rapid.Check(t, func(rt *rapid.T) {
